@@ -10,27 +10,47 @@ Open Scope Z_scope.
    every chunk size > 0 the dataset afterwards holds the old events followed
    by the new ones — every event written exactly once, none beyond. *)
 Theorem C01_write_nd_appends :
-  forall (csb : Z) (old : option nd) (shape : list Z) (itemsize : Z) (data : list row),
+  forall (csb : Z) (old : option nd) (shape : list Z) (itemsize : Z) (dt0 : ndt)
+         (data : list row),
     match old with Some d => 0 < nd_chunk d | None => True end ->
-    nd_rows (write_nd csb old shape itemsize data)
+    nd_rows (write_nd csb old shape itemsize dt0 data)
     = match old with Some d => nd_rows d | None => [] end ++ data.
 Proof. exact write_nd_appends. Qed.
 Print Assumptions C01_write_nd_appends.
 
 (* Every history of writer calls (any modes, reopen points, chunk settings,
-   interleaving): an image-like feature reads back as the concatenation of
-   what was written to it since the last replace/reset; masks as booleans. *)
-Theorem C01_nd_history :
+   interleaving): an image-like or user-shaped feature reads back as the
+   concatenation of what was written to it since the last replace/reset (masks
+   as booleans; arrays in their single-event and many-event forms).
+   The full statement is refuted: the dtype of an n-d dataset is frozen by the
+   first array (or forced: uint8 images, float32 qpi) and later values it
+   cannot hold are converted (finding C01-nd-dtype-frozen); it holds when every
+   value fits the dataset that receives it ([hist_ok]). *)
+Theorem C01_nd_history_refuted :
+  exists (ops : list op) (f : Z),
+    rd_nd (st_f (run init ops)) f <> spec_nd f 0 [] ops.
+Proof. exact nd_history_refuted. Qed.
+Print Assumptions C01_nd_history_refuted.
+
+Theorem C01_nd_history_partial :
   forall (f : Z) (ops : list op),
+    hist_ok init ops = true ->
     rd_nd (st_f (run init ops)) f = spec_nd f 0 [] ops.
 Proof. exact nd_history_init. Qed.
-Print Assumptions C01_nd_history.
+Print Assumptions C01_nd_history_partial.
 
-Theorem C01_trace_history :
+Theorem C01_trace_history_refuted :
+  exists (ops : list op) (tr : Z),
+    rd_trace (st_f (run init ops)) tr <> spec_trace tr 0 [] ops.
+Proof. exact trace_history_refuted. Qed.
+Print Assumptions C01_trace_history_refuted.
+
+Theorem C01_trace_history_partial :
   forall (tr : Z) (ops : list op),
+    hist_ok init ops = true ->
     rd_trace (st_f (run init ops)) tr = spec_trace tr 0 [] ops.
 Proof. exact trace_history_init. Qed.
-Print Assumptions C01_trace_history.
+Print Assumptions C01_trace_history_partial.
 
 (* Contour k is stored under the name str(k) across appends, reopen, replace
    and reset: reading events 0..N-1 by name returns the written contours. *)
@@ -84,11 +104,32 @@ Theorem C01_table_history :
 Proof. exact table_history_init. Qed.
 Print Assumptions C01_table_history.
 
-(* rectify_metadata: when all stored features hold n events the event count
-   written on exit is n. *)
+(* rectify_metadata: when all stored features hold n events (each trace of
+   the trace group; an empty trace group counts as a feature without events)
+   the event count written on exit is n ... *)
 Theorem C01_event_count_matches :
   forall (s : file) (n : Z),
     Balanced s n -> feats_sorted s <> [] ->
     rd_attr (rectify_metadata s) M_EVENT_COUNT = Some n.
 Proof. exact event_count_matches. Qed.
 Print Assumptions C01_event_count_matches.
+
+(* ... hence for every history that leaves such a file, closing the writer
+   stores the event count n. *)
+Theorem C01_event_count_history :
+  forall (ops : list op) (n : Z),
+    Balanced (st_f (run init ops)) n -> feats_sorted (st_f (run init ops)) <> [] ->
+    rd_attr (st_f (run init (ops ++ [OClose]))) M_EVENT_COUNT = Some n.
+Proof. exact event_count_history. Qed.
+Print Assumptions C01_event_count_history.
+
+(* Metadata keys the writer does not auto-complete (everything but event
+   count, roi size, samples per event, channel count) read back as the last
+   value given to store_metadata since the last reset, for every history.
+   (The conversion to the documented type is C11's subject.) *)
+Theorem C01_meta_history :
+  forall (k : Z) (ops : list op),
+    auto_key k = false ->
+    rd_attr (st_f (run init ops)) k = spec_meta k None ops.
+Proof. exact meta_history_init. Qed.
+Print Assumptions C01_meta_history.
